@@ -44,8 +44,10 @@ theorem verifySig_none (env : Env) (k : KeyItem) (a : Alg) (msg s : Bytes)
          · rename_i sig hsig
            refine ⟨sig, hsig, ?_⟩
            split at h
-           · assumption
-           · simp at h)
+           · simp at h
+           · split at h
+             · assumption
+             · simp at h)
 
 /-- **Soundness.** If `jwt_checker_verify` returns 0 and the configuration in force holds a key `k`,
 then the token is `h.p.s` split at its first two dots, the header names the pinned algorithm `a`,
@@ -57,7 +59,7 @@ theorem C01_sound (env : Env) (ck : Checker) (tok : Option Bytes) (h : (verify e
       t = p.head ++ [46] ++ p.payload ++ [46] ++ p.sig ∧ (46 : UInt8) ∉ p.head ∧ (46 : UInt8) ∉ p.payload ∧
       ∀ k, (afterCb ck.cfg p).2.key = some k →
         p.alg = pinned (afterCb ck.cfg p).2 ∧
-        SigValid env k p.alg (p.head ++ [46] ++ p.payload) p.sig := by
+        SigValid env k p.alg (signingInput p.head p.payload) p.sig := by
   obtain ⟨t, rfl, _, hok⟩ := (verify_rc_zero env ck tok).1 h
   obtain ⟨p, hp, _, _, _, hcp, hsig⟩ := verifyCore_ok env ck.cfg t hok
   obtain ⟨hsplit, hd1, hd2, _⟩ := parse_ok env.jc t p hp
